@@ -107,13 +107,13 @@ REGISTRY = {
     "C16": {
         "level": "proof",
         "modules": ["SkaModel.Props.C16", "SkaModel.Props.C16Bits", "SkaModel.Props.C16Roll", "SkaModel.Props.C16Hash"],
-        "gen": ["C16"],
+        "gen": ["C16"], "cli": [cli.c16_cli],
         "rule": "generated per (k, width): all split k-mers for small k, structured + random integers, random sequences with N; non-trivial = distinct case lines whose result is a value (not none/panic)",
         "trusted_base": COMMON_TRUST,
         "assumptions": [EXTERNAL, "reverse ntHash seed of a base = forward seed of its complement (compared on every generated window)"],
     },
     "C02": {
-        "level": "proof", "modules": ["SkaModel.Props.C02", "SkaModel.Props.EndToEnd"], "gen": ["C02"], "cli": [cli.c02_cli],
+        "level": "proof", "modules": ["SkaModel.Props.C02", "SkaModel.Props.EndToEnd"], "gen": ["C02"], "cli": [cli.c02_cli, cli.c02_deep_cli],
         "rule": "record sets of C01 x transformations (record permutation, random case mask, per-record reverse complement when strands are merged, all together); in-process metamorphic comparison + CLI runs on re-wrapped/gzip-compressed/permuted files; non-trivial = distinct case lines yielding at least one k-mer",
         "trusted_base": COMMON_TRUST, "assumptions": [EXTERNAL, "gzip decompression and FASTA line joining (needletail) are exercised through the CLI only"],
     },
@@ -138,22 +138,22 @@ REGISTRY = {
         "trusted_base": COMMON_TRUST, "assumptions": [EXTERNAL, "actual rayon scheduling and DashMap interleavings are sampled by the matrix, not proved"],
     },
     "C06": {
-        "level": "proof", "modules": ["SkaModel.Props.C06"], "gen": ["C06"], "cli": [cli.make_hist_cli("C06", 12, 150)],
+        "level": "proof", "modules": ["SkaModel.Props.C06"], "gen": ["C06"], "cli": [cli.make_hist_cli("C06", 40, 400)],
         "rule": "random tables (1-12 samples, 0-13 rows, bases/gaps/ambiguity codes at several densities) x align observers over all four site filters, all flag combinations, thresholds 0..n, run through generic_modes::align with save/reload; non-trivial = distinct case lines with at least one emitted column",
         "trusted_base": COMMON_TRUST, "assumptions": [EXTERNAL, "the float expression ceil(n*min_freq) is glue: thresholds are passed as min_freq=(t-1/2)/n"],
     },
     "C07": {
-        "level": "proof", "modules": ["SkaModel.Props.C07", "SkaModel.Props.EndToEnd"], "gen": ["C07"], "cli": [cli.make_hist_cli("C07", 12, 150)],
+        "level": "proof", "modules": ["SkaModel.Props.C07", "SkaModel.Props.EndToEnd"], "gen": ["C07"], "cli": [cli.make_hist_cli("C07", 40, 400)],
         "rule": "start table merged with 1-3 further tables (shared and private k-mers, 1-3 samples each, nested via reload), incl. refused merges (other k / strand), k across the 64/128-bit boundary; non-trivial = distinct case lines whose merge succeeded",
         "trusted_base": COMMON_TRUST, "assumptions": [EXTERNAL],
     },
     "C08": {
-        "level": "proof", "modules": ["SkaModel.Props.C08", "SkaModel.Props.EndToEnd"], "gen": ["C08"], "cli": [cli.make_hist_cli("C08", 16, 200)],
+        "level": "proof", "modules": ["SkaModel.Props.C08", "SkaModel.Props.EndToEnd"], "gen": ["C08"], "cli": [cli.make_hist_cli("C08", 40, 400)],
         "rule": "tables of 2-8 samples; delete sets: first, last, adjacent block, alternating, random subset, shuffled order, all (refused), unknown (refused), partly unknown (refused), none (refused); non-trivial = accepted deletions",
         "trusted_base": COMMON_TRUST, "assumptions": [EXTERNAL],
     },
     "C09": {
-        "level": "proof", "modules": ["SkaModel.Props.C09"], "gen": [], "cli": [cli.c09_cli, cli.make_map_cli("C09", 24, 200), cli.make_hist_cli("C09", 12, 150, gen_prop="C10")],
+        "level": "proof", "modules": ["SkaModel.Props.C09"], "gen": [], "cli": [cli.c09_cli, cli.make_map_cli("C09", 24, 200), cli.make_hist_cli("C09", 30, 300, gen_prop="C10")],
         "rule": "random tables for all 30 k x both widths (0-200 rows, 1-5 samples, all stored symbols; k>=33 families whose k-mers all fit in 64 bits; thorough: thousands of k-mers over several compression frames): saved by the real code, raw CBOR decoded + re-encoded by the model byte for byte; CLI merge in both orders and map/weed/nk/distance/align on 64-bit-fitting k>=33 files; non-trivial = tables with at least one k-mer",
         "trusted_base": COMMON_TRUST, "assumptions": [EXTERNAL, "Snappy compression (write side) and serde derive are exercised, not modelled"],
     },
@@ -175,28 +175,28 @@ REGISTRY = {
         "trusted_base": COMMON_TRUST, "assumptions": [EXTERNAL, "flips inside compressed payloads / chunk type / length bytes are decided per file by enumeration, not by theorem (2^-32 CRC events)"],
     },
     "C12": {
-        "level": "proof", "modules": ["SkaModel.Props.C12", "SkaModel.Props.C12Spec"], "gen": ["C12"], "cli": [cli.c12_cli],
+        "level": "proof", "modules": ["SkaModel.Props.C12", "SkaModel.Props.C12Spec"], "gen": ["C12"], "cli": [cli.c12_cli, cli.auto_mincount_cli],
         "rule": "paired FASTQ read sets drawn from a small genome on both strands with errors and N, lengths k..3k, qualities at min_qual-1/min_qual/min_qual+1, min-count 1-6 (counts hit c-1, c, c+1 across files and strands), min-qual 0-40, three quality rules, k in {5..63}, both strand modes, self-reverse-complement arms; non-trivial = distinct case lines yielding at least one k-mer",
         "trusted_base": COMMON_TRUST, "assumptions": [EXTERNAL, "exactness is stated under the no-collision hypothesis (ntHash injective on the observed k-mers, no Bloom false positive among them); the collision rate is measured, not proved"],
     },
     "C20": {
-        "level": "proof", "modules": ["SkaModel.Props.C20", "SkaModel.Props.C20Real"], "gen": [], "cli": [cli.c20_cli],
+        "level": "proof", "modules": ["SkaModel.Props.C20", "SkaModel.Props.C20Real"], "gen": [], "cli": [cli.c20_cli, cli.auto_mincount_cli],
         "rule": "parameter points (0<w0<1, c>=1, random and two-peak histograms of 1-120 rows) for likelihood/gradient (code vs model Float instance, and code gradient vs central finite differences of the code's likelihood); cutoff points over table lengths 0..200; generated read pairs (coverage 10-80, error 0-3%, N, both strand modes, k 15..33) through CoverageHistogram and `ska cov`; non-trivial = points compared away from rounding ties / pairs whose fit converged",
         "trusted_base": COMMON_TRUST + ["hooked private functions (feature verif-hooks): log_likelihood, grad_ll, find_cutoff, fitted state, k-mer multiplicities"],
         "assumptions": [EXTERNAL, "IEEE-754 evaluation of every f64 expression, libm::lgamma and the argmin BFGS fit are outside the model: formulas are compared numerically with tolerance, the fitted (w0, c) are taken from the code"],
     },
     "C10": {
-        "level": "proof", "modules": ["SkaModel.Props.C10"], "gen": ["C10"], "cli": [cli.make_hist_cli("C10", 14, 200)],
+        "level": "proof", "modules": ["SkaModel.Props.C10"], "gen": ["C10"], "cli": [cli.make_hist_cli("C10", 40, 400)],
         "rule": "random histories (length 1-8) over merge, delete, weed, reverse weed, frequency/constant/ambiguity filtering with and without --filter-ambig-as-missing/--ambig-mask, reload; every step through generic_modes with save+load; observers nk, 3 aligns, distance on the final file; non-trivial = distinct histories that ran to the end",
         "trusted_base": COMMON_TRUST, "assumptions": [EXTERNAL],
     },
     "C13": {
-        "level": "proof", "modules": ["SkaModel.Props.C13", "SkaModel.Props.EndToEnd"], "gen": ["C13"], "cli": [cli.make_hist_cli("C13", 12, 150)],
+        "level": "proof", "modules": ["SkaModel.Props.C13", "SkaModel.Props.EndToEnd"], "gen": ["C13"], "cli": [cli.make_hist_cli("C13", 40, 400)],
         "rule": "tables x weed record sets that hit a random subset of rows on either strand (with N, noise, several records), forward, reverse and twice; non-trivial = distinct case lines where weeding removed or kept at least one k-mer",
         "trusted_base": COMMON_TRUST, "assumptions": [EXTERNAL],
     },
     "C14": {
-        "level": "proof", "modules": ["SkaModel.Props.C14"], "gen": ["C14"], "cli": [cli.make_hist_cli("C14", 10, 120)],
+        "level": "proof", "modules": ["SkaModel.Props.C14"], "gen": ["C14"], "cli": [cli.make_hist_cli("C14", 40, 400)],
         "rule": "tables of 2-12 samples (unambiguous, 1 in 4 with ambiguity codes for the model comparison), any missingness; distance with thresholds 0..n, with and without --allow-ambiguous, plus MergeSkaArray::distance with a given constant; integers exact (36 x distance), proportions to 2e-5 / 2e-9; non-trivial = all",
         "trusted_base": COMMON_TRUST, "assumptions": [EXTERNAL, "f64 evaluation and the printed rounding (.2/.5) are outside the model; compared with tolerance"],
     },
